@@ -202,6 +202,19 @@ fn rand_stream(rng: &mut Rng, rep: &mut Report) -> (Vec<u8>, usize) {
                 tape.extend(refs::enc_crlf(a, t, &d));
                 rep.count("lines/leading_noise");
             }
+            8 if rng.chance(1, 2) => {
+                // a line whose LENGTH FIELD alone is wrong (off by 1, 2, 16, 64, 128, 255 — modulo 256) while its checksum is
+                // right for the bytes as sent: a length mismatch, for `read` as for `from_bytes`
+                let off = *rng.pick(&[1u8, 2, 0x10, 0x40, 0x80, 0xFF, 0xFE]);
+                let mut fields = vec![(d.len() as u8).wrapping_add(off), (a >> 8) as u8, a as u8, t];
+                fields.extend_from_slice(&d);
+                let sum = fields.iter().fold(0u8, |x, y| x.wrapping_add(*y));
+                fields.push(sum.wrapping_neg());
+                tape.push(b':');
+                tape.extend(hex(&fields).to_ascii_uppercase().into_bytes());
+                tape.extend_from_slice(b"\r\n");
+                rep.count("lines/wrong_length_field_right_checksum");
+            }
             5 => {
                 tape.extend(refs::enc(a, t, &d));
                 tape.extend_from_slice(b"\r\r\n"); // doubled CR
@@ -1230,6 +1243,7 @@ pub fn run(ctx: &Ctx) -> Outcome {
         floor("good frames after exactly k undecodable lines / k failing reads (k = 1..257)", report.get("read_cases/k_undecodable_lines_then_good_ones") == 40 && report.get("read_cases/k_failing_reads_then_good_ones") == 8, report.get("read_cases/k_undecodable_lines_then_good_ones")),
         floor("lines of 524 .. 70 000 bytes without a line feed, then good frames; noise in front of a frame on the same line", report.get("read_cases/overlong_line_then_good_frames") == 36 && report.get("lines/leading_noise") > 100, report.get("lines/leading_noise")),
         floor("junk lines of 515 .. 530 bytes (around the longest frame's 523), then good frames", report.get("read_cases/junk_line_about_as_long_as_the_longest_frame") == 64, report.get("read_cases/junk_line_about_as_long_as_the_longest_frame")),
+        floor("lines whose length field alone is wrong (off by 1 .. 255) with a checksum that is right for the bytes as sent", report.get("lines/wrong_length_field_right_checksum") > 1000, report.get("lines/wrong_length_field_right_checksum")),
         floor("300 to 70 000 interrupted reads during one line", report.get("read_cases/thousands_of_interrupts_in_one_line") == 12, report.get("read_cases/thousands_of_interrupts_in_one_line")),
         floor("maximum-length lines read through 1..6 interrupted reads", report.get("read_cases/maximum_length_frames_interrupted") == 84, report.get("read_cases/maximum_length_frames_interrupted")),
         floor("70 000 lines through one reader and 70 000 frames into one sink", report.get("marathon_lines_read") == 70_000 && report.get("marathon_frames_written") == 70_000, format!("{} / {}", report.get("marathon_lines_read"), report.get("marathon_frames_written"))),
